@@ -531,6 +531,7 @@ def r196(ctx):
 
 def run(ctx):
     ctx.rule("R-19.6", "the flattened box matrix has the element order of the g96 BOX record (folded from the source, comprehensions included)", floor=1)
+    ctx.rule("R-19.7", "positional role agreement in the codecs: (box, xyz, vel, names) / (id_type, pos, vel, box) / (rawdata, xyz, vel, box) are unpacked and passed at the positions where the callee returns / expects them", floor=12)
     ctx.rule("R-19.1", "g96 field widths / counts / prefix agree between writer and reader", floor=4)
     ctx.rule("R-19.2", "xyz field count, column order, box token and header line count agree", floor=4)
     ctx.rule("R-19.3", "lammpstrj header line count and column layout agree across four functions", floor=5)
@@ -538,9 +539,17 @@ def run(ctx):
     ctx.rule("R-19.5", "reverse-velocity siblings negate velocities and nothing else", floor=5)
     for r in (r191, r192, r193, r194, r195, r196):
         ctx.attempt(r, ctx)
+    from .shared import role_agreement
+    P19 = ("_read_configuration", "_reverse_velocities", "_extract_frame", "convert_snapshot", "read_xyz_file", "write_xyz_trajectory",
+           "read_lammpstrj", "write_lammpstrj", "read_gromos96_file", "write_gromos96_file", "read_cp2k_box", "read_box_data",
+           "dump_frame", "dump_config", "read_trr_frame", "read_trr_header", "read_trr_data", "read_energies", "read_cp2k_energy")
+    ctx.attempt(role_agreement, ctx, "R-19.7", [GROMACS, CP2K, LAMMPS, TURTLE, ASE, ENGPARTS], lambda q, f: f.name in P19, " (the codec would exchange positions/velocities/box/identities)")
 
 
 VARIANTS = [
+    B("c19-lammps-reverse-unpack-permuted", LAMMPS, "        id_type, pos, vel, box = read_lammpstrj(filename, 0, self.n_atoms)\n        vel *= -1.0", "        id_type, vel, pos, box = read_lammpstrj(filename, 0, self.n_atoms)\n        vel *= -1.0", "R-19.7", control=True),
+    B("c19-turtle-snapshot-unpack-permuted", TURTLE, "            box, xyz, vel, names = convert_snapshot(snapshot)\n            return xyz, vel, box, names", "            xyz, box, vel, names = convert_snapshot(snapshot)\n            return xyz, vel, box, names", "R-19.7"),
+    B("c19-gromacs-writer-args-swapped", GROMACS, "            write_gromos96_file(out_file, self.top, xyz, vel, box)", "            write_gromos96_file(out_file, self.top, vel, xyz, box)", "R-19.7"),
     B("c19-g96-width-writer", GROMACS, '_G96_FMT = "{0:}{1:15.9f}{2:15.9f}{3:15.9f}\\n"', '_G96_FMT = "{0:}{1:16.9f}{2:16.9f}{3:16.9f}\\n"', "R-19.1", control=True),
     B("c19-g96-width-reader", GROMACS, "    _len = 15\n", "    _len = 14\n", "R-19.1"),
     B("c19-g96-prefix-shifted", GROMACS, "    _pos = 24\n", "    _pos = 25\n", "R-19.1"),
